@@ -19,6 +19,7 @@ type c08Entry struct {
 	Cmd       []int   `json:"cmd"`
 	Desc      []int   `json:"desc"`
 	Keys      [][]int `json:"keys"`
+	Tags      [][]int `json:"tags"`
 	Niche     []int   `json:"niche"`
 	Platforms [][]int `json:"platforms"`
 	Pipeline  bool    `json:"pipeline"`
@@ -118,6 +119,18 @@ func c08GenStep(r *rand.Rand, prev []c08Step) c08Step {
 			}
 		}
 	}
+	// list items exactly as a shell can pass them: padded with blanks, or empty (`-k "tar, backup,"`)
+	if h := len(s.Cmd) + len(s.Desc); len(s.Keys) > 0 {
+		if h%5 == 0 {
+			s.Keys = append([][]int{ints(" " + fromInts(s.Keys[0]) + "\t")}, s.Keys[1:]...)
+		}
+		if h%7 == 0 {
+			s.Keys = append(append([][]int{}, s.Keys...), ints(""), ints("last"))
+		}
+	}
+	if len(s.Platforms) > 0 && len(s.Cmd)%4 == 1 {
+		s.Platforms = intsList([]string{"linux", " macOS "})
+	}
 	return s
 }
 
@@ -130,8 +143,16 @@ func c08Args(s c08Step) []string {
 	}
 	// flags go before "--"
 	var fl []string
+	hasEmpty := false
 	for _, k := range s.Keys {
-		fl = append(fl, "--keywords", fromInts(k))
+		hasEmpty = hasEmpty || len(k) == 0
+	}
+	if hasEmpty { // an empty item can only be written inside a comma-separated value
+		fl = append(fl, "--keywords", strings.Join(strsList(s.Keys), ","))
+	} else {
+		for _, k := range s.Keys {
+			fl = append(fl, "--keywords", fromInts(k))
+		}
 	}
 	if len(s.Niche) > 0 {
 		fl = append(fl, "--category", fromInts(s.Niche))
@@ -155,7 +176,7 @@ func c08Dump(path string) ([]c08Entry, bool) {
 	}
 	out := []c08Entry{}
 	for _, c := range db.Commands {
-		out = append(out, c08Entry{Cmd: ints(c.Command), Desc: ints(c.Description), Keys: intsList(c.Keywords), Niche: ints(c.Niche), Platforms: intsList(c.Platform), Pipeline: c.Pipeline})
+		out = append(out, c08Entry{Cmd: ints(c.Command), Desc: ints(c.Description), Keys: intsList(c.Keywords), Tags: intsList(c.Tags), Niche: ints(c.Niche), Platforms: intsList(c.Platform), Pipeline: c.Pipeline})
 	}
 	return out, false
 }
@@ -174,7 +195,7 @@ func c08Run(c *c08Case, bin, dir string, mainFile string, mainN int) {
 		os.WriteFile(book, nil, 0o644)
 	case "populated":
 		os.MkdirAll(filepath.Dir(book), 0o755)
-		os.WriteFile(book, []byte("- command: \"git status\"\n  description: \"Show status\"\n  keywords: [\"git\", \"status\"]\n  pipeline: false\n- command: \"ls -la\"\n  description: \"older entry\"\n  keywords: []\n  pipeline: false\n"), 0o644)
+		os.WriteFile(book, []byte("- command: \"git status\"\n  description: \"Show status\"\n  keywords: [\"git\", \"status\"]\n  tags: [\"vcs\", \"work tree\"]\n  pipeline: false\n- command: \"ls -la\"\n  description: \"older entry\"\n  keywords: []\n  pipeline: false\n"), 0o644)
 	}
 	c.Init, _ = c08Dump(book)
 	if c.Start == "missing" {
